@@ -29,8 +29,14 @@
     * `unsupported_raises` – everything the back-end does not implement raises;
     * `sv_rejects`         – emu-sv: XY, any other interaction type, any level count ≠ 2 raise;
     * `impl_matches_solver` – `create_impl` hands out the DMRG implementation iff DMRG was asked;
-    * `sequence_sound`, `digital_never_emulated` – from the addressed channel bases: only
-      `{ground-rydberg}` and `{XY}` sequences are ever emulated, with the matching Hamiltonian.
+    * `sequence_sound`, `digital_never_emulated`, `unsupported_pulsed_never_emulated` – from the
+      channel bases a sequence declares and pulses: only sequences that declare nothing but
+      ground-rydberg (or nothing but XY) are ever emulated, with the matching Hamiltonian; a
+      sequence that *pulses* the digital basis never is, whatever unused channels it declares
+      (`extract_guard_used_counterexample`: false for the seeded change t11-C04).
+    * `solver_form_irrelevant`, `dmrg_any_form` – the decision depends on the value of
+      `config.solver` only (enum member, string `"dmrg"`, abstract-repr round trip);
+      `solver_identity_counterexample`: false when the code tests `is Solver.DMRG` (t09-C33).
     * `run_kind_constant`, `accept_kind_constant` – with the Hamiltonian kind recorded per time
       step (`acceptRun`/`acceptSteps`): every step of a run that returns results uses the same,
       right Hamiltonian, for every pattern of interaction-matrix changes (SLM mask ending inside
@@ -156,15 +162,28 @@ theorem impl_matches_solver (s : Solver) (nOps nAtoms : Nat) (cn : Bool) (i : Im
   · simp only [if_true] at h
     split_ifs at h <;> cases h <;> simp
 
-/-- From the channel bases a Pulser sequence addresses: only pure ground-rydberg and pure XY
-sequences are ever emulated, and with the matching Hamiltonian. -/
-theorem sequence_sound (fixed : Bool) (b : Backend) (bases : List ChanBasis) (leak : Bool)
+/-- `pulserBasis` answers only for the six pulsed-basis sets Pulser can produce. -/
+theorem pulserBasis_cases {declared pulsed : List ChanBasis} {leak : Bool} {x : IntType × Nat}
+    (h : pulserBasis declared pulsed leak = some x) :
+    pulsed = [] ∨ pulsed = [.groundRydberg] ∨ pulsed = [.digital] ∨
+    pulsed = [.groundRydberg, .digital] ∨ pulsed = [.digital, .groundRydberg] ∨ pulsed = [.xy] := by
+  rcases pulsed with _ | ⟨a, _ | ⟨b, _ | ⟨c, t⟩⟩⟩
+  · simp
+  · cases a <;> simp
+  · cases a <;> cases b <;> simp [pulserBasis] at h ⊢
+  · cases a <;> cases b <;> simp [pulserBasis] at h
+
+/-- From the channel bases of a Pulser sequence (`declared` channels, of which `pulsed ⊆ declared`
+are driven): only sequences that declare nothing but ground-rydberg, or nothing but XY, are ever
+emulated, and with the matching Hamiltonian. -/
+theorem sequence_sound (fixed : Bool) (b : Backend) (declared pulsed : List ChanBasis) (leak : Bool)
     (kinds : List NoiseKind) (s : Solver) (k : HamKind)
-    (h : acceptSequence .repaired fixed b bases leak kinds s = some (.emulate k)) :
-    ((bases = [.groundRydberg] ∧ (k = .rydberg2 ∨ k = .rydberg3)) ∨
-     (bases = [.xy] ∧ (k = .xy2 ∨ k = .xy3))) ∧ implements b s k = true := by
-  unfold acceptSequence at h
-  cases hb : pulserBasis bases leak with
+    (hsub : ∀ x ∈ pulsed, x ∈ declared)
+    (h : acceptSequence .repaired fixed b declared pulsed leak kinds s = some (.emulate k)) :
+    ((declared = [.groundRydberg] ∧ (k = .rydberg2 ∨ k = .rydberg3)) ∨
+     (declared = [.xy] ∧ (k = .xy2 ∨ k = .xy3))) ∧ implements b s k = true := by
+  unfold acceptSequence acceptSequenceG at h
+  cases hb : pulserBasis declared pulsed leak with
   | none => rw [hb] at h; cases h
   | some p =>
     obtain ⟨it, dim⟩ := p
@@ -179,33 +198,96 @@ theorem sequence_sound (fixed : Bool) (b : Backend) (bases : List ChanBasis) (le
       | ok n =>
         rw [hl] at h
         split_ifs at h
-        cases he : extractOk bases with
+        simp only [extractOkG] at h
+        cases he : extractOk declared with
         | err e => rw [he] at h; cases h
         | ok u =>
           rw [he] at h
           have hs := accept_sound b it dim kinds s k h
           refine ⟨?_, hs.2⟩
-          have hbases : bases = [.groundRydberg] ∨ bases = [.xy] := by
-            match bases, he with
+          have hdecl : declared = [.groundRydberg] ∨ declared = [.xy] := by
+            match declared, he with
             | [.groundRydberg], _ => exact Or.inl rfl
             | [.xy], _ => exact Or.inr rfl
             | [], he | [.digital], he | _ :: _ :: _, he => simp [extractOk] at he
-          rcases hbases with rfl | rfl
+          have hp := pulserBasis_cases hb
+          rcases hdecl with rfl | rfl
           · left
             refine ⟨rfl, ?_⟩
-            cases leak <;> simp [pulserBasis] at hb <;> obtain ⟨rfl, rfl⟩ := hb <;>
-              simp [pulserHam, hamKind] at hs <;> simp [← hs.1]
+            rcases hp with rfl | rfl | rfl | rfl | rfl | rfl
+            all_goals first
+              | (exfalso; simp at hsub; done)
+              | (cases leak <;> simp [pulserBasis] at hb <;> obtain ⟨rfl, rfl⟩ := hb <;>
+                  simp [pulserHam, hamKind] at hs <;> simp [← hs.1])
           · right
             refine ⟨rfl, ?_⟩
-            cases leak <;> simp [pulserBasis] at hb <;> obtain ⟨rfl, rfl⟩ := hb <;>
-              simp [pulserHam, hamKind] at hs <;> simp [← hs.1]
+            rcases hp with rfl | rfl | rfl | rfl | rfl | rfl
+            all_goals first
+              | (exfalso; simp at hsub; done)
+              | (cases leak <;> simp [pulserBasis] at hb <;> obtain ⟨rfl, rfl⟩ := hb <;>
+                  simp [pulserHam, hamKind] at hs <;> simp [← hs.1])
 
-/-- A sequence that addresses the digital basis never produces results on any back-end. -/
-theorem digital_never_emulated (fixed : Bool) (b : Backend) (bases : List ChanBasis) (leak : Bool)
-    (kinds : List NoiseKind) (s : Solver) (k : HamKind) (hd : ChanBasis.digital ∈ bases) :
-    acceptSequence .repaired fixed b bases leak kinds s ≠ some (.emulate k) := by
+/-- A sequence that declares a digital-basis channel never produces results on any back-end. -/
+theorem digital_never_emulated (fixed : Bool) (b : Backend) (declared pulsed : List ChanBasis)
+    (leak : Bool) (kinds : List NoiseKind) (s : Solver) (k : HamKind)
+    (hsub : ∀ x ∈ pulsed, x ∈ declared) (hd : ChanBasis.digital ∈ declared) :
+    acceptSequence .repaired fixed b declared pulsed leak kinds s ≠ some (.emulate k) := by
   intro h
-  rcases (sequence_sound fixed b bases leak kinds s k h).1 with ⟨rfl, _⟩ | ⟨rfl, _⟩ <;> simp at hd
+  rcases (sequence_sound fixed b declared pulsed leak kinds s k hsub h).1 with ⟨rfl, _⟩ | ⟨rfl, _⟩ <;>
+    simp at hd
+
+/-- A sequence whose *pulsed* basis is one the back-ends do not implement (digital) never
+produces results, whatever other channels it declares or leaves unused. -/
+theorem unsupported_pulsed_never_emulated (fixed : Bool) (b : Backend)
+    (declared pulsed : List ChanBasis) (leak : Bool) (kinds : List NoiseKind) (s : Solver) (k : HamKind)
+    (hsub : ∀ x ∈ pulsed, x ∈ declared) (hd : ChanBasis.digital ∈ pulsed) :
+    acceptSequence .repaired fixed b declared pulsed leak kinds s ≠ some (.emulate k) :=
+  digital_never_emulated fixed b declared pulsed leak kinds s k hsub (hsub _ hd)
+
+/-- Seeded variant t11-C04 (the single-basis guard counts only bases with non-zero samples, the
+selection still looks at the declared keys): a digital sequence that also declares an unused
+rydberg channel is emulated. -/
+theorem extract_guard_used_counterexample :
+    ¬ (∀ (b : Backend) (declared pulsed : List ChanBasis) (k : HamKind),
+        (∀ x ∈ pulsed, x ∈ declared) → ChanBasis.digital ∈ pulsed →
+        acceptSequenceG .used .repaired true b declared pulsed false [] .tdvp ≠ some (.emulate k)) := by
+  intro h
+  exact h .sv [.groundRydberg, .digital] [.digital] .rydberg2 (by simp) (by simp) (by decide)
+
+/-! ### How the solver is requested -/
+
+/-- The decision depends on the *value* of `config.solver` only: the enum member, the string
+`"dmrg"` and a config round-tripped through its abstract representation take the same branch. -/
+theorem solver_form_irrelevant (f : SolverForm) (v : Variant) (b : Backend) (d : Seq) (s : Solver)
+    (cn : Bool) (nOps nAtoms : Nat) :
+    createImplF .byValue f v s nOps cn nAtoms = createImpl v s nOps cn nAtoms ∧
+    acceptSeqF .byValue f v b d s cn = acceptSeq v b d s cn := ⟨rfl, rfl⟩
+
+/-- Hence: DMRG requested in *any* form gets the DMRG implementation or an exception, and with
+Lindblad operators or configured noise it raises. -/
+theorem dmrg_any_form (f : SolverForm) (nOps nAtoms : Nat) (cn : Bool) :
+    (∀ i, createImplF .byValue f .repaired .dmrg nOps cn nAtoms = .ok i → i = .dmrg) ∧
+    ((0 < nOps ∨ cn = true) → createImplF .byValue f .repaired .dmrg nOps cn nAtoms = .err .notImpl) := by
+  constructor
+  · intro i hi
+    exact (impl_matches_solver .dmrg nOps nAtoms cn i hi).1 rfl
+  · intro h
+    show createImpl .repaired .dmrg nOps cn nAtoms = .err .notImpl
+    unfold createImpl
+    rcases h with h | h
+    · simp [h]
+    · subst h
+      by_cases h0 : 0 < nOps <;> simp [h0]
+
+/-- Seeded variant t09-C33 (`is Solver.DMRG`): the string form falls through to the TDVP branches —
+DMRG + one Lindblad operator gets the quantum-jump implementation. -/
+theorem solver_identity_counterexample :
+    ¬ (∀ (f : SolverForm) (nOps nAtoms : Nat) (cn : Bool) (i : Impl),
+        createImplF .byIdentity f .repaired .dmrg nOps cn nAtoms = .ok i → i = .dmrg) := by
+  intro h
+  have := h .string 1 2 false .noisy (by decide)
+  revert this
+  decide
 
 /-! ### The Hamiltonian stays the same over the whole run -/
 
@@ -318,8 +400,10 @@ example : acceptSeq .repaired .mps { ham := .rydberg, dim := 2, opDims := [3], n
     .tdvp false = .raise .assertion := by decide
 example : acceptSeq .repaired .mps { ham := .xy, dim := 2, opDims := [], nAtoms := 3, nGood := 1 }
     .tdvp false = .raise .value := by decide
-example : acceptSequence .repaired false .mps [.digital] false [] .tdvp = some (.raise .value) := by decide
-example : acceptSequence .repaired false .mps [.xy] true [.leakage] .tdvp = some (.emulate .xy3) := by decide
+example : acceptSequence .repaired false .mps [.digital] [.digital] false [] .tdvp = some (.raise .value) := by decide
+example : acceptSequence .repaired true .sv [.groundRydberg, .digital] [.digital] false [] .tdvp = some (.raise .value) := by decide
+example : acceptSequence .repaired true .sv [.groundRydberg] [] false [] .tdvp = some (.emulate .rydberg2) := by decide
+example : acceptSequence .repaired false .mps [.xy] [.xy] true [.leakage] .tdvp = some (.emulate .xy3) := by decide
 example : createImpl .repaired .tdvp 2 false 2 = .ok .noisy := by decide
 example : acceptRun .passesType .repaired .mps { ham := .xy, dim := 2, opDims := [], nAtoms := 3, nGood := 3 }
     .tdvp false [true, false] = .emulate [.xy2, .xy2, .xy2] := by decide
